@@ -177,4 +177,14 @@ var configs = map[string]propCfg{
 			"Non-trivial = threshold within 1 of the measure, a monotonicity pair with diagnostics, a multi-field size comparison, a plumbing run with parameters; distinct by case.",
 		Assumptions: []string{wellTyped, "the Go compiler's unsafe.Sizeof is the reference for sizes", "measure of an if-else chain = number of else keywords (the documented example, two of them, triggers at the default 2)", "length of a comment = runes of go/ast CommentGroup.Text() (markers stripped, trailing newline included)"},
 	},
+	"C09": {
+		Quick:    tierCfg{Shards: 8, Checks: 150, Limit: qLimit},
+		Thorough: tierCfg{Shards: 16, Checks: 3000, Limit: tLimit},
+		Floor:    60,
+		Rule: "programs as in C01 (kernels of every checker that carries a fix or quotes replacement code, with marker statements mark(N) drawn between the statements of multi-statement patterns; mutations: parentheses, literal respelling, forwarding, bare returns, odd declarations, std-named locals). " +
+			"For every diagnostic with a machine fix, and every diagnostic whose message matches a per-checker recipe (message = prefix + A + infix + B + suffix with A the printed/source form of a node at the position), B is substituted for A: " +
+			"B parses in A's category; the file parses; every marker present before is present after; the package type-checks (unused imports tolerated); the replaced expression keeps its type (up to default types); re-analysis of a fixed file does not repeat the diagnostic (non-overlapping fixes only). " +
+			"Non-trivial = a diagnostic with a fix or a recipe-matched quotation; distinct by checker x origin x message class x operand shape.",
+		Assumptions: []string{wellTyped, "a recipe that does not match is 'not checked', never a violation", "messages truncated by the rule engine (<...>) are skipped"},
+	},
 }
